@@ -36,48 +36,6 @@ theorem callUser_frame (fuel : Nat) (ctx : X.Ctx) (p : X.Proc) (vs : List Val) (
             · exact ⟨by rw [← h.2], by rw [← h.2]⟩
             · exact ⟨by rw [← h.2], by rw [← h.2]⟩
 
-theorem bindFormals_nonint : ∀ (fs : List X.Formal) (vs : List Val), fs.all isValFormal = true →
-    (¬ ∃ ws : List Word, vs = ws.map Val.int) → ∃ e, X.bindFormals fs vs = .error e := by
-  intro fs
-  induction fs with
-  | nil =>
-    intro vs _ h
-    cases vs with
-    | nil => exact absurd ⟨[], rfl⟩ h
-    | cons v vs => exact ⟨_, rfl⟩
-  | cons f fs ih =>
-    intro vs hv h
-    simp only [List.all_cons, Bool.and_eq_true] at hv
-    cases f with
-    | val n =>
-      cases vs with
-      | nil => exact ⟨_, rfl⟩
-      | cons v vs =>
-        cases v with
-        | arr r => exact ⟨_, rfl⟩
-        | int w =>
-          obtain ⟨e, he⟩ := ih vs hv.2 (fun ⟨ws, hws⟩ => h ⟨w :: ws, by simp [hws]⟩)
-          exact ⟨e, by simp only [X.bindFormals, he]; rfl⟩
-    | array n => simp [isValFormal] at hv
-    | proc n => simp [isValFormal] at hv
-    | func n => simp [isValFormal] at hv
-
-/-- A call of a procedure with `val` formals is only defined on integer actuals. -/
-theorem callUser_ints (fuel : Nat) (ctx : X.Ctx) (p : X.Proc) (vs : List Val) (st : X.St)
-    (hf : p.formals.all isValFormal = true) (h : ∀ w, X.callUser fuel ctx p vs st ≠ .undef w) :
-    ∃ ws : List Word, vs = ws.map Val.int := by
-  apply Classical.byContradiction
-  intro hn
-  cases fuel with
-  | zero => exact h _ (callUser_zero ctx p vs st)
-  | succ f =>
-    obtain ⟨e, he⟩ := bindFormals_nonint _ _ hf hn
-    have := h
-    rw [callUser_succ] at this
-    by_cases hd : st.depth ≥ X.maxDepth
-    · rw [if_pos hd] at this; exact this _ rfl
-    · rw [if_neg hd, he] at this; exact this _ rfl
-
 /-- After the callee has returned, the caller's memory represents the state of the reference
     semantics again: its own frame is as it was (from slot `q` on), the globals are the callee's. -/
 theorem rep_return {G : GCtx} (ok : G.OK) {pi : PInfo} (hpi : pi ∈ G.procs) (sp dep : Nat) (hi : Nat → Word)
@@ -89,9 +47,14 @@ theorem rep_return {G : GCtx} (ok : G.OK) {pi : PInfo} (hpi : pi ∈ G.procs) (s
   have wf := ok.wfs pi hpi sp dep hi hlo hspv
   exact {
     sp := h1
-    vals := fun n w h => by simp [KOf] at h
+    vals := by
+      intro n w h
+      have := rep.vals n w h
+      unfold ValBound at this ⊢
+      rw [hloc]
+      exact this
     vars := by
-      intro n w _ hr
+      intro n w hρ hr
       change X.readName G.xc s' n = .ok (.int w) at hr
       cases hl : s'.locals.lookup n with
       | some b =>
@@ -103,7 +66,7 @@ theorem rep_return {G : GCtx} (ok : G.OK) {pi : PInfo} (hpi : pi ∈ G.procs) (s
           cases b with
           | var o => cases o <;> exact hr
           | _ => exact hr
-        obtain ⟨a, ha, hlt, hv⟩ := rep.vars n w rfl hr0
+        obtain ⟨a, ha, hlt, hv⟩ := rep.vars n w hρ hr0
         refine ⟨a, ha, hlt, ?_⟩
         have hge : sp + q ≤ a := by
           rcases wf.loc_sep n a ha with hlow | hhigh
@@ -124,7 +87,7 @@ theorem rep_return {G : GCtx} (ok : G.OK) {pi : PInfo} (hpi : pi ∈ G.procs) (s
         | some g =>
           rw [hgv] at hr
           cases g with
-          | val w' => exact absurd hgv (ok.no_vals n w')
+          | val w' => have := (ok.rho_ok n w').mp hgv; rw [show G.rho n = none from hρ] at this; simp at this
           | array id => simp at hr
           | proc q => simp at hr
           | var =>
@@ -196,7 +159,7 @@ theorem rep_return {G : GCtx} (ok : G.OK) {pi : PInfo} (hpi : pi ∈ G.procs) (s
         | some g =>
           rw [hgv] at hr
           cases g with
-          | val w' => exact absurd hgv (ok.no_vals n w')
+          | val w' => simp at hr
           | proc q => simp at hr
           | var =>
             exfalso
@@ -229,15 +192,15 @@ theorem toNat_ofNat_lt (n : Nat) (h : n < 2 ^ 32) : (BitVec.ofNat 32 n).toNat = 
 theorem exec_usercall {G : GCtx} (ok : G.OK) (fuel : Nat) (hcs : CallSpec G fuel) {pi : PInfo} (hpi : pi ∈ G.procs)
     {pj : PInfo} (hpj : pj ∈ G.procs) (sp dep : Nat) (hi : Nat → Word) (hlo : G.lo ≤ sp) (hspv : sp + G.S pi + pi.po + pi.p.formals.length ≤ G.spv + 1)
     (hstack : G.spv ≤ sp + dep * G.smax)
-    (es : List X.Expr) (fuel' : Nat) (st s : X.St) (ws : List Word) (hp : ∀ e ∈ es, pureE e = true)
-    (hev : X.evalArgs fuel' G.xc es st = .ok (ws.map Val.int) s)
+    (es : List X.Expr) (fuel' : Nat) (st s : X.St) (ws : List Val) (hp : ∀ e ∈ es, pureE e = true)
+    (hev : X.evalArgs fuel' G.xc es st = .ok ws s)
     (gs : GS) (code : Code) (gs' : GS) (i : Nat) (a b : Word) (mem : Mem)
-    (hg : callSeq pj.callKind (optArgsOf (fun _ => none) es).length (countCalls (optArgsOf (fun _ => none) es))
-            (genCallActuals (G.ctxOf pi) (optArgsOf (fun _ => none) es))
-            (fun p sv => loadActuals (G.ctxOf pi) (optArgsOf (fun _ => none) es) p sv) gs = .ok (code, gs'))
+    (hg : callSeq pj.callKind (optArgsOf G.rho es).length (countCalls (optArgsOf G.rho es))
+            (genCallActuals (G.ctxOf pi) (optArgsOf G.rho es))
+            (fun p sv => loadActuals (G.ctxOf pi) (optArgsOf G.rho es) p sv) gs = .ok (code, gs'))
     (hat : At G.env.ds i (lowerCode G.cg code)) (hr : Rep (KOf G pi sp dep hi) st mem)
     (hsz : gs'.size ≤ G.S pi) (hnl : pi.p.locals.length ≤ gs.offset) (hci : ConstsIn (KOf G pi sp dep hi) gs') :
-    match X.callUser fuel G.xc pj.p (ws.map Val.int) s with
+    match X.callUser fuel G.xc pj.p ws s with
     | .ok res s' => ∃ a' b' mem', Steps G.env (cfg i a b mem) st.io (cfg (i + (lowerCode G.cg code).length) a' b' mem') s'.io ∧
         Rep (KOf G pi sp dep hi) s' mem' ∧ (pj.p.isFunc = true → ∀ w, res = some w → a' = w) ∧
         FrmC (KOf G pi sp dep hi) gs.offset (G.S pi) mem mem'
@@ -255,7 +218,7 @@ theorem exec_usercall {G : GCtx} (ok : G.OK) (fuel : Nat) (hcs : CallSpec G fuel
       show a = sp + G.S pi - 1 - (G.S pi - 1 - (a - sp))
       omega
   obtain ⟨c1, gs1, c2, gs2, h1, h2, hcode, hgs'⟩ := callSeq_inv _ _ _ _ _ _ _ _ hg
-  obtain ⟨hnc, hcnt⟩ := genCallActuals_noCall (G.ctxOf pi) (optArgsOf (fun _ => none) es) { gs with size := gs.offset }
+  obtain ⟨hnc, hcnt⟩ := genCallActuals_noCall (G.ctxOf pi) (optArgsOf G.rho es) { gs with size := gs.offset }
     (optArgsOf_noCall _ es hp)
   rw [hnc] at h1
   simp only [Except.ok.injEq, Prod.mk.injEq] at h1
@@ -263,7 +226,7 @@ theorem exec_usercall {G : GCtx} (ok : G.OK) (fuel : Nat) (hcs : CallSpec G fuel
   subst hc1; subst hgs1
   rw [hcnt, callKind_po] at h2
   simp only [bumpN] at h2
-  have hlen : (optArgsOf (fun _ => none) es).length = es.length := by simp [optArgsOf]
+  have hlen : (optArgsOf G.rho es).length = es.length := by simp [optArgsOf]
   subst hgs'
   simp only [callKind_po, hlen] at hsz hci
   subst hcode
@@ -276,7 +239,7 @@ theorem exec_usercall {G : GCtx} (ok : G.OK) (fuel : Nat) (hcs : CallSpec G fuel
     simpa using this
   have hs2 := evalArgs_pure G.xc es fuel' st s _ hp hev
   have hpo := po_pos pj
-  obtain ⟨a1, b1, mem1, st1, rep1, hvals, _, frm1⟩ := exec_loadActuals (KOf G pi sp dep hi) wf.toWF es fuel' st s ws hp hev
+  obtain ⟨a1, b1, mem1, st1, rep1, hvals, hokv, _, frm1⟩ := exec_loadActualsV (KOf G pi sp dep hi) wf.toWF es fuel' st s ws hp hev
     pj.po gs.offset _ c2 gs2 i a b mem st.io rfl h2 hat.left hr (by show gs2.size + (pj.po + es.length) ≤ G.S pi; omega) hnl
     (Nat.le_refl _) (fun x hx => hci x hx)
   have rep1s : Rep (KOf G pi sp dep hi) s mem1 := rep1.same hs2
@@ -309,10 +272,10 @@ theorem exec_usercall {G : GCtx} (ok : G.OK) (fuel : Nat) (hcs : CallSpec G fuel
       (cfg (i + (lowerCode G.cg c2).length + 1) (BitVec.ofNat 32 (G.env.addr (i + (lowerCode G.cg c2).length + 2))) b1 mem1)
       st.io _ _ t1 lPro
     have hspec := hcs pj hpj ws s (BitVec.ofNat 32 (G.env.addr (i + (lowerCode G.cg c2).length + 2))) b1 mem1 sp
-      (i + (lowerCode G.cg c2).length + 2) .plain _ grep rep1s.sp
+      (i + (lowerCode G.cg c2).length + 2) .plain _ grep rep1s.sp hokv
       (fun j hj => by have := hvals j hj; rw [Nat.add_assoc] at this ⊢; exact this)
       (by rw [hdep]; exact hstack) (by omega) hlo t2 (toNat_ofNat_lt _ haddr).symm
-    cases hx : X.callUser fuel G.xc pj.p (ws.map Val.int) s with
+    cases hx : X.callUser fuel G.xc pj.p ws s with
     | undef w => trivial
     | exit cd s' =>
       rw [hx] at hspec
@@ -361,10 +324,10 @@ theorem exec_usercall {G : GCtx} (ok : G.OK) (fuel : Nat) (hcs : CallSpec G fuel
       (cfg (i + (lowerCode G.cg c2).length + 1) (BitVec.ofNat 32 (G.env.addr (i + (lowerCode G.cg c2).length + 2))) b1 mem1)
       st.io _ _ t1 lPro
     have hspec := hcs pj hpj ws s (BitVec.ofNat 32 (G.env.addr (i + (lowerCode G.cg c2).length + 2))) b1 mem1 sp
-      (i + (lowerCode G.cg c2).length + 2) .plain _ grep rep1s.sp
+      (i + (lowerCode G.cg c2).length + 2) .plain _ grep rep1s.sp hokv
       (fun j hj => by have := hvals j hj; rw [Nat.add_assoc] at this ⊢; exact this)
       (by rw [hdep]; exact hstack) (by omega) hlo t2 (toNat_ofNat_lt _ haddr).symm
-    cases hx : X.callUser fuel G.xc pj.p (ws.map Val.int) s with
+    cases hx : X.callUser fuel G.xc pj.p ws s with
     | undef w => trivial
     | exit cd s' =>
       rw [hx] at hspec
